@@ -37,7 +37,7 @@ MCKeysets ==
   \cup {Keyset(U32(5), <<MCPair[1], MCPair[2], MCPair[3]>>), Keyset(U32Max, <<MCPair[3], MCPair[3], MCPair[4]>>)}
   \cup {Keyset(U32Zero, <<>>), Keyset(U32(7), <<>>)}
 KeysetSeq == SetToSeq(MCKeysets)
-SmallLen == IF Full THEN 4 ELSE 3
+SmallLen == IF Full THEN 5 ELSE 3
 AlphabetSeq == SetToSeq(SmallAlphabet)
 
 \* ------------------------------------------------------------------ theorems about one keyset
@@ -88,8 +88,11 @@ EnvelopeTheorems(ks) ==
     /\ LET pt == ToyOpen(e.enc, <<>>) IN pt.ok => DecodeBin(pt.pt) = Good(ks, {})
 
 \* ------------------------------------------------------------------ theorems about one octet string
+\* (KeyFormatWire keeps varints in TLC integers: it is defined where no varint has more than 4 octets)
+ShortVarints(b) == ~\E i \in 1..(Len(b) - 3) : \A j \in i..(i + 3) : b[j] >= 128
 AgreesWithC12(b) ==
   LET p == WParse(b) IN
+  ShortVarints(b) =>
   /\ KFW!WellFormedMsg(b) => p.ok
   /\ (p.ok /\ \A i \in 1..Len(p.fs) : p.fs[i].wt \in {0, 2} /\ (p.fs[i].wt = 0 => Len(p.fs[i].v) <= 4))
        => /\ KFW!WellFormedMsg(b)
